@@ -319,7 +319,8 @@ private theorem add_nodes (g g' : G) (path : P) (deps : List P) (h : add g path 
         refine ⟨this.1, fun q hq => this.2 q ?_⟩
         simp only [addNode_mem]
         exact Or.inl (Or.inl hq)
-    have k := key deps { g with nodes := addNode g.nodes path }
+    have k := key deps { g with nodes := addNode g.nodes path,
+                                edges := g.edges.filter (fun e => e.2 != path) }
     refine ⟨k.1, fun q hq => k.2 q (by simp only [addNode_mem]; exact Or.inl hq),
       k.2 path (by simp [addNode_mem])⟩
   · simp at h
